@@ -189,6 +189,14 @@ def finish(ctx: Ctx, evidence_dir: str, level: str = "other") -> int:
         "known_findings": [f.key for f in listed],
         "unlisted_findings": [f.to_json() for f in unlisted],
     }
+    try:
+        from .cfg import CFG
+        coverage["cfgs_built"] = CFG.stats["cfgs"]
+        coverage["cfg_nodes"] = CFG.stats["nodes"]
+        coverage["cfg_edges"] = CFG.stats["edges"]
+        coverage["functions_with_cfg"] = len(CFG.stats["functions"])
+    except Exception:  # noqa: BLE001
+        pass
     coverage.update(ctx.notes)
     ev = {
         "property_id": pid,
